@@ -1,7 +1,7 @@
 """C16 Configuration precedence: explicit flag over config file over default."""
 
 from ..report import Ctx
-from ..rules import config, optflow
+from ..rules import cleanups, config, optflow
 
 EXPLANATION = (
     "Static agreement check of the tables that implement the precedence (finite sets read from the source): (K1) every "
@@ -20,6 +20,7 @@ EXPLANATION = (
 
 
 def run(ctx: Ctx) -> None:
+    ctx.rule('R-DECISION-spacing', 'a list-spacing mode that arrives from the config file as a plain string selects the same arm of the list renderer as the enum member (compared by value, not identity)')
     ctx.rule("R-CONFIG-K1", "every accepted config key is an Options field and is consumed after the merge")
     ctx.rule("R-CONFIG-K2", "explicit-flag table covers every setting with both a flag and a config key, with the right dest")
     ctx.rule("R-CONFIG-K3", "sentinel parser mirrors the main parser for tracked dests and knows every short option")
@@ -32,6 +33,7 @@ def run(ctx: Ctx) -> None:
     ctx.run(config.check_config)
     ctx.run(optflow.check_main_call)
     ctx.run(resolver_binding)
+    ctx.run(cleanups.check_spacing_arms)
     ctx.assume("argparse semantics: dest derivation, short-option clustering, parse_known_args; tomllib parses TOML correctly")
 
 
